@@ -164,6 +164,15 @@ def run_check(pid, tier, harnesses, level="model_checking", assumptions=(), expl
                                forall=res.stats["forall_q"]),
                   solver_s=round(res.stats["solver_s"], 2), inconclusive=len(res.inconclusive),
                   not_modelled_paths=res.not_modelled, top_choices=res.top_choices)
+        xc = {k[7:]: (round(v, 2) if isinstance(v, float) else v) for k, v in res.stats.items() if k.startswith("xcheck_")}
+        if xc:
+            hc["solver_cross_check"] = xc
+            tot = cov.setdefault("solver_cross_check", dict(
+                what="every %d-th deciding unsat verdict of z3 %s (discharged obligation, pruned branch side, exhausted integer split) re-decided from SMT-LIB2 text by /usr/bin/z3 "
+                     "4.8.12 and cvc5 1.0.3 (%d s each); sat = disagreement = exit 2; unknown/error are not believed"
+                     % (vsym.XCHECK, vsym.z3.get_version_string(), vsym.XCHECK_S)))
+            for k, v in xc.items():
+                tot[k] = round(tot.get(k, 0) + v, 2)
         cov["harnesses"][h.name] = hc
         cov["states"] += res.paths
         cov["transitions"] += res.stats["decisions"]
